@@ -39,6 +39,9 @@ pub enum Ini {
     PeerDisc,
     /// peer DISCONNECT carrying a session expiry interval (a protocol error in that very packet)
     PeerDiscExpiry,
+    /// peer DISCONNECT carrying Session Expiry Interval 0: explicit, but not a change of the CONNECT value (0) -
+    /// a well-formed normal disconnect like `PeerDisc` (MQTT-3.14.2-2 forbids only a non-zero value)
+    PeerDiscExpiry0,
     /// server: PINGREQ (traffic that asks for a response)
     Ping,
     HOk,
@@ -222,11 +225,11 @@ impl Scenario for Dc {
         }
         let server = self.cfg.ep.role == Role::Server;
         let pid = self.next_pid;
-        if !matches!(i, Ini::Pub1 | Ini::Sub | Ini::Ping | Ini::HOk | Ini::POk | Ini::PeerDisc | Ini::CloseNoReason | Ini::ForceClose | Ini::COk | Ini::CErr) {
+        if !matches!(i, Ini::Pub1 | Ini::Sub | Ini::Ping | Ini::HOk | Ini::POk | Ini::PeerDisc | Ini::PeerDiscExpiry0 | Ini::CloseNoReason | Ini::ForceClose | Ini::COk | Ini::CErr) {
             self.causes += 1;
         }
-        if matches!(i, Ini::PeerDisc | Ini::PeerDiscExpiry) && self.first_peer_disc.is_none() {
-            self.first_peer_disc = Some(i);
+        if matches!(i, Ini::PeerDisc | Ini::PeerDiscExpiry0 | Ini::PeerDiscExpiry) && self.first_peer_disc.is_none() {
+            self.first_peer_disc = Some(if i == Ini::PeerDiscExpiry0 { Ini::PeerDisc } else { i });
         }
         match i {
             Ini::Pub1 => {
@@ -282,6 +285,7 @@ impl Scenario for Dc {
                 }
             }
             Ini::PeerDisc => self.conn.send(&Pkt::Disconnect { code: Some(0), props: None }),
+            Ini::PeerDiscExpiry0 => self.conn.send(&Pkt::Disconnect { code: Some(0), props: Some(vec![(0x11, PVal::U32(0))]) }),
             Ini::PeerDiscExpiry => self.conn.send(&Pkt::Disconnect { code: Some(0), props: Some(vec![(0x11, PVal::U32(5))]) }),
             Ini::Ping => self.conn.send(&Pkt::PingReq),
             Ini::HOk | Ini::HErr => {
@@ -462,6 +466,9 @@ pub fn configs(tier: Tier) -> Vec<DcCfg> {
         ];
         if server {
             groups.extend([
+                // (a server must never send the property, so these are server-role groups only)
+                (vec![PeerDiscExpiry0, Pub1, HOk, Close], false),
+                (vec![PeerDiscExpiry0, PeerDiscExpiry, CloseReason, HErr, Pub1], false),
                 (vec![Sub, PDisc, PErr, POk, PeerDisc, Close], false),
                 (vec![Sub, PDisc, Pub1, HErr, Ping], false),
                 (vec![QosViol, RetainViol, SubIdViol, PeerDisc], false),
